@@ -591,8 +591,92 @@ func TestC08(t *testing.T) {
 			}
 			simkit.Global.Inc("seals_recomputed")
 			checkWorkShareVerdicts(n, h, bi, fail)
+			checkSealCoverage(h, bi, fail)
 		}}
 	})
+}
+
+// checkSealCoverage: a seal found for one header must not fit a header that differs in any single consensus field. The
+// accepted header is taken as is (pre-fork layout) and with its prime terminus moved past the KawPow fork and the
+// share-accounting fields populated (post-fork layout); every field is changed alone and the seal hash must move.
+func checkSealCoverage(h *types.WorkObjectHeader, bi *BlockInfo, fail func(class, witness, detail string)) {
+	bump := func(v *big.Int) *big.Int { return new(big.Int).Add(v, common.Big1) }
+	flip := func(x common.Hash) common.Hash { x[7] ^= 0x10; return x }
+	type mut struct {
+		name string
+		f    func(w *types.WorkObjectHeader)
+	}
+	muts := []mut{
+		{"headerHash", func(w *types.WorkObjectHeader) { w.SetHeaderHash(flip(w.HeaderHash())) }},
+		{"parentHash", func(w *types.WorkObjectHeader) { w.SetParentHash(flip(w.ParentHash())) }},
+		{"number", func(w *types.WorkObjectHeader) { w.SetNumber(bump(w.Number())) }},
+		{"difficulty", func(w *types.WorkObjectHeader) { w.SetDifficulty(bump(w.Difficulty())) }},
+		{"primeTerminusNumber", func(w *types.WorkObjectHeader) { w.SetPrimeTerminusNumber(bump(w.PrimeTerminusNumber())) }},
+		{"txHash", func(w *types.WorkObjectHeader) { w.SetTxHash(flip(w.TxHash())) }},
+		{"primaryCoinbase", func(w *types.WorkObjectHeader) {
+			b := w.PrimaryCoinbase().Bytes20()
+			b[19] ^= 1
+			w.SetPrimaryCoinbase(common.Bytes20ToAddress(b, LocZone))
+		}},
+		{"location", func(w *types.WorkObjectHeader) { w.SetLocation(common.Location{0, 1}) }},
+		{"lock", func(w *types.WorkObjectHeader) { w.SetLock(w.Lock() ^ 1) }},
+		{"time", func(w *types.WorkObjectHeader) { w.SetTime(w.Time() + 1) }},
+		{"data", func(w *types.WorkObjectHeader) { w.SetData(append(common.CopyBytes(w.Data()), 0x01)) }},
+	}
+	post := []mut{
+		{"scryptDiffAndCount.difficulty", func(w *types.WorkObjectHeader) {
+			d := w.ScryptDiffAndCount()
+			w.SetScryptDiffAndCount(types.NewPowShareDiffAndCount(bump(d.Difficulty()), d.Count(), d.Uncled()))
+		}},
+		{"scryptDiffAndCount.count", func(w *types.WorkObjectHeader) {
+			d := w.ScryptDiffAndCount()
+			w.SetScryptDiffAndCount(types.NewPowShareDiffAndCount(d.Difficulty(), bump(d.Count()), d.Uncled()))
+		}},
+		{"scryptDiffAndCount.uncled", func(w *types.WorkObjectHeader) {
+			d := w.ScryptDiffAndCount()
+			w.SetScryptDiffAndCount(types.NewPowShareDiffAndCount(d.Difficulty(), d.Count(), bump(d.Uncled())))
+		}},
+		{"shaDiffAndCount.difficulty", func(w *types.WorkObjectHeader) {
+			d := w.ShaDiffAndCount()
+			w.SetShaDiffAndCount(types.NewPowShareDiffAndCount(bump(d.Difficulty()), d.Count(), d.Uncled()))
+		}},
+		{"shaDiffAndCount.count", func(w *types.WorkObjectHeader) {
+			d := w.ShaDiffAndCount()
+			w.SetShaDiffAndCount(types.NewPowShareDiffAndCount(d.Difficulty(), bump(d.Count()), d.Uncled()))
+		}},
+		{"shaDiffAndCount.uncled", func(w *types.WorkObjectHeader) {
+			d := w.ShaDiffAndCount()
+			w.SetShaDiffAndCount(types.NewPowShareDiffAndCount(d.Difficulty(), d.Count(), bump(d.Uncled())))
+		}},
+		{"shaShareTarget", func(w *types.WorkObjectHeader) { w.SetShaShareTarget(bump(w.ShaShareTarget())) }},
+		{"scryptShareTarget", func(w *types.WorkObjectHeader) { w.SetScryptShareTarget(bump(w.ScryptShareTarget())) }},
+		{"kawpowDifficulty", func(w *types.WorkObjectHeader) { w.SetKawpowDifficulty(bump(w.KawpowDifficulty())) }},
+	}
+	for _, layout := range []string{"pre-fork", "post-fork"} {
+		base := types.CopyWorkObjectHeader(h)
+		list := muts
+		if layout == "post-fork" {
+			base.SetPrimeTerminusNumber(new(big.Int).SetUint64(params.KawPowForkBlock + bi.Number))
+			base.SetScryptDiffAndCount(types.NewPowShareDiffAndCount(big.NewInt(1000+int64(bi.Number)), big.NewInt(7), big.NewInt(3)))
+			base.SetShaDiffAndCount(types.NewPowShareDiffAndCount(big.NewInt(2000+int64(bi.Number)), big.NewInt(9), big.NewInt(5)))
+			base.SetShaShareTarget(big.NewInt(11))
+			base.SetScryptShareTarget(big.NewInt(11)) // honest producers set both from the same call
+			base.SetKawpowDifficulty(big.NewInt(4242))
+			list = append(append([]mut{}, muts...), post...)
+		} else if base.KawpowActivationHappened() {
+			continue
+		}
+		ref := base.SealHash()
+		for _, m := range list {
+			c := types.CopyWorkObjectHeader(base)
+			m.f(c)
+			simkit.Global.Inc("seal_field_mutations")
+			if c.SealHash() == ref {
+				fail("seal-covers-content", "field="+m.name+" layout="+layout, fmt.Sprintf("header of #%d: changing only %s leaves the seal hash %x unchanged, so a seal found for one content fits the other", bi.Number, m.name, ref))
+				return
+			}
+		}
+	}
 }
 
 // checkWorkShareVerdicts re-seals copies of an accepted block's header with nonces whose proof-of-work hash falls
